@@ -8,7 +8,16 @@ from .. import units
 from .base import Base
 from .tools import value_to_string
 
-APPLY_OP_TO_UNIT = ("multiply", "true_divide", "divide", "sqrt", "power", "reciprocal")
+APPLY_OP_TO_UNIT = (
+    "multiply",
+    "true_divide",
+    "divide",
+    "sqrt",
+    "square",
+    "cbrt",
+    "power",
+    "reciprocal",
+)
 
 
 def _binary_op(op, lhs, rhs, strict=True, **kwargs):
